@@ -1,1 +1,10 @@
-//! harness package hproc
+//! harness package hproc - C20: child processes (complete stdio, real exit status).
+//!
+//! `replay::main()` is the body of the two replay binaries (`replay_process` = default build of
+//! compio-process, wait on the blocking pool; `replay_process_pidfd` = feature `linux_pidfd`,
+//! nightly, wait = PollOnce on the pidfd).  The same executable is also the helper child
+//! (`<exe> --child ...`), see `child`.
+pub mod child;
+pub mod pattern;
+pub mod procfs;
+pub mod replay;
